@@ -125,15 +125,15 @@ def render : Ast → String
 /-! ### tokens -/
 
 def ratToks (q : Rat) : List Tok :=
-  let n : Rat := ((q.num.natAbs : Nat) : Int)
+  let n : Nat := q.num.natAbs
   (if q < 0 then [Tok.minus] else []) ++
-    (if q.den = 1 then [Tok.num n] else [Tok.num n, .slash, .num ((q.den : Nat) : Int)])
+    (if q.den = 1 then [Tok.num n 0] else [Tok.num n 0, .slash, .num q.den 0])
 
 def expToks (e : Rat) : List Tok :=
-  if e.den = 1 && e ≥ 0 then [Tok.num e] else [Tok.lpar] ++ ratToks e ++ [Tok.rpar]
+  if e.den = 1 && e ≥ 0 then [Tok.num e.num.natAbs 0] else [Tok.lpar] ++ ratToks e ++ [Tok.rpar]
 
 def itemToks : Item → List Tok
-  | .lit n => [.num ((n : Nat) : Int)]
+  | .lit n => [.num n 0]
   | .sym s => [.name s]
   | .sqrt s => [.name "sqrt", .lpar, .name s, .rpar]
   | .pow s e => [.name s, .dstar] ++ expToks e
@@ -147,7 +147,7 @@ def renderTokens : Ast → List Tok
   | .num q => ratToks q
   | .lone it => itemToks it
   | .frac neg a b =>
-    let n := if a.isEmpty then [Tok.num 1] else joinToks a
+    let n := if a.isEmpty then [Tok.num 1 0] else joinToks a
     let d := match b with
       | [] => []
       | [x] => [Tok.slash] ++ itemToks x
